@@ -336,6 +336,12 @@ pub fn run(prop: &str, tier: &str, seed: u64, workers: usize) -> Report {
         let mut rep = Report::default();
         let mut md: Option<crate::model::Model> = None;
         for ci in 0..n { if ci as usize % nw != w { continue; }
+            if prop == "C17" {
+                // XML read paths against the model of the pointer walks (Crdt/XmlWalk.v)
+                if md.is_none() { md = Some(crate::model::Model::spawn()); }
+                let res = { let m = md.as_mut().unwrap(); catch(std::panic::AssertUnwindSafe(|| { let mut r2 = Report::default(); crate::xw::case(seed, ci, m, &mut r2); r2 })) };
+                match res { Ok(r2) => rep.merge(r2), Err(e) => { md = None; rep.evaluations += 1; rep.fail(json!({"property": prop, "class": "panic", "error": e, "case": {"stream": 132, "index": ci}})); } }
+            }
             if prop == "C03" {
                 if md.is_none() { md = Some(crate::model::Model::spawn()); }
                 let res = { let m = md.as_mut().unwrap(); catch(std::panic::AssertUnwindSafe(|| { let mut r2 = Report::default(); placement_case(seed, ci, m, &mut r2); r2 })) };
